@@ -1,14 +1,21 @@
 #!/bin/bash
-# Runs the C27 quick tier against each mutant patch in /verif/sensitivity/C27 through tools/mutant_run.sh.
+# Runs the C27 check against each mutant patch in /verif/sensitivity/C27 through tools/mutant_run.sh.
 # The scratch copy's target dir is pre-seeded from this engine's target dir (registry crates are reused,
-# everything under the patched repo copy is rebuilt). Output: /var/tmp/verif-scratch-e2-sens/<mutN>.log
-# Usage: tools/sensitivity.sh [mutant numbers...]   (default: 1 2 3 4 5)
+# everything under the patched repo copy is rebuilt). Output: /var/tmp/verif-scratch-e2-sens/<mutN>[-thorough].log
+# Usage: [TIER=quick|thorough] tools/sensitivity.sh [mutant numbers...]   (default: 1 2 3 4 5 6)
+# TIER=thorough also runs the Miri leg (its target dir is pre-seeded too).
 set -u
 OUT=/var/tmp/verif-scratch-e2-sens; mkdir -p "$OUT"
-MUTS="${*:-1 2 3 4 5}"
+MUTS="${*:-1 2 3 4 5 6}"
+TIER="${TIER:-quick}"
+SUF=""; [ "$TIER" = thorough ] && SUF="-thorough"
 for i in $MUTS; do
-  KEEP=0 /verif/tools/mutant_run.sh "e2-c27-mut$i" "/verif/sensitivity/C27/mut$i.diff" \
-    bash -c 'cp -a /verif/e2_wakesim/target e2_wakesim/target 2>/dev/null; ./e2_wakesim/check_c27.sh --tier quick; rc=$?; echo "--- replay files:"; ls replays; for f in replays/*.json; do [ -f "$f" ] && { echo "--- $f"; python3 -c "import json,sys; j=json.load(open(sys.argv[1])); print(j[\"violation\"]); print(j[\"detail\"]); print(j[\"steps\"], \"steps; iteration\", j[\"iteration_in_batch\"], \"of batch\", j[\"batch\"], j[\"scheduler\"]); print(\"\\n\".join(j[\"event_log\"]))" "$f"; }; done; exit $rc' \
-    > "$OUT/mut$i.log" 2>&1
-  echo "mut$i exit=$? ($(grep -c '^VIOLATION' "$OUT/mut$i.log") VIOLATION lines)"
+  KEEP=0 /verif/tools/mutant_run.sh "e2-c27-mut$i$SUF" "/verif/sensitivity/C27/mut$i.diff" \
+    bash -c 'cp -a /verif/e2_wakesim/target e2_wakesim/target 2>/dev/null
+             [ "$0" = thorough ] && cp -a /verif/e2_wakesim/target-miri e2_wakesim/target-miri 2>/dev/null
+             ./e2_wakesim/check_c27.sh --tier "$0"; rc=$?
+             echo "--- replay files:"; ls replays
+             python3 e2_wakesim/tools/show_replays.py replays
+             exit $rc' "$TIER" > "$OUT/mut$i$SUF.log" 2>&1
+  echo "mut$i$SUF exit=$? ($(grep -c '^VIOLATION' "$OUT/mut$i$SUF.log") VIOLATION lines)"
 done
